@@ -114,7 +114,7 @@ def jobs(tier, seed):
         strings = [list(x) for x in all_strings(sk.V, L)][:15 if quick else 31]
         bits = [0, 1] if sk.K >= 7 else ([0] if sk.K >= 5 else [])
         out += split_job(dict(case="locally_normalize", params=dict(shape=sh, strings=strings)), bits)
-    for sh in (["G-NU", "G-FIN", "G-DUP2"] if quick else ["G-NU", "G-FIN", "G-DUP2", "G-PAL", "G-UC", "G-DUP"]):
+    for sh in (["G-NU", "G-FIN", "G-DUP2", "G-MUT"] if quick else ["G-NU", "G-FIN", "G-DUP2", "G-MUT", "G-PAL", "G-UC", "G-DUP", "G-2CYC"]):
         sk = grammar(sh)
         out += split_job(dict(case="add_EOS", params=dict(shape=sh, L=3 if quick else 4, call=[[], ["a"], ["a", "b"]])), [0] if sk.K >= 7 else [])
     out.append(dict(case="locally_normalize", params=dict(shape="G-S1", strings=[[], ["a"]], canary=True)))
